@@ -209,16 +209,29 @@ def process_noise(k=0):
             from mathy_core.expressions import MultiplyExpression
             from mathy_core.tokenizer import Tokenizer
             for c in (2, 3, 4, 6, 8, 9, 10, 12):
-                f = factor_add_terms_ex(MultiplyExpression(ConstantExpression(c), VariableExpression("x")), MultiplyExpression(ConstantExpression(c * (1 + k % 3)), VariableExpression("y" if k % 2 else "x")))
-                if f is not False:
-                    f.all_left.clear(); f.all_right.clear()
-                    f.common_factors.clear() if hasattr(f.common_factors, "clear") else None
-                d = factor(c)
-                d.clear()
+                try:
+                    f = factor_add_terms_ex(get_term_ex(MultiplyExpression(ConstantExpression(c), VariableExpression("x"))),
+                                            get_term_ex(MultiplyExpression(ConstantExpression(c * (1 + k % 3)), VariableExpression("y" if k % 2 else "x"))))
+                    if f is not False and f is not None:
+                        for tbl in (f.all_left, f.all_right, f.common_factors):
+                            if hasattr(tbl, "clear"):
+                                tbl.clear()
+                    d = factor(c)
+                    d.clear()
+                except BaseException:  # noqa
+                    pass
+        except BaseException:  # noqa
+            pass
+        try:
+            from mathy_core.tokenizer import Tokenizer
             for toks in (Tokenizer().tokenize("1 + 2 - 3 * 4 / 5 ^ 6 ! = ( ) sgn(x)"), Tokenizer(exclude_padding=False).tokenize("7 - (2)"), p.tokenize("4x + 2y^3 - sgn(x)")):
                 for tk in toks:
                     tk.value = "#"
                     tk.type = 1 << 13
+        except BaseException:  # noqa
+            pass
+        try:
+            from mathy_core.util import get_terms, get_term_ex
             for n in t.to_list():
                 n.classes.append("edited-in-place")
                 n.classes += ["more"]
